@@ -15,14 +15,20 @@ TRANSLATORS = [
     ('cache_events', 'py2coq_cache_events', 'regenerate'),
     ('c13', 'py2coq_c13', 'regenerate'),
     ('c17_signalops', 'py2coq_c17', 'regenerate'),
+    ('c17_remove_poly', 'py2coq_rmpoly', 'regenerate'),
     ('c06_fourier', 'py2coq_c06', 'regenerate'),
     ('helpers', 'py2coq_helpers', 'regenerate'),
+    ('c20_interp2d', 'py2coq_interp2d', 'regenerate'),
     ('c07_smoothing', 'py2coq_c07', 'regenerate'),
     ('c15_stockwell', 'py2coq_c15', 'regenerate'),
     ('c19_surface', 'py2coq_c19', 'regenerate'),
     ('c14_timestep', 'py2coq_c14', 'regenerate'),
     ('c18_multiple', 'py2coq_c18', 'regenerate'),
     ('c16_loader', 'py2coq_c16', 'regenerate'),
+    ('c03_object_layer', 'py2coq_objlayer', 'regenerate_c03'),
+    ('c08_object_layer', 'py2coq_objlayer', 'regenerate_c08'),
+    ('c07_object_layer', 'py2coq_objlayer', 'regenerate_c07'),
+    ('c11_peaks', 'py2coq_c11', 'regenerate'),
 ]
 
 
